@@ -11,7 +11,7 @@ from fractions import Fraction
 from ..facts import render, strip, alternatives, resolve_conds, cond_str, walk, AnchorLost, fn_key
 from ..data import abstract_tokens, all_groups, mandatory_groups
 from ..ratfun import Rat, to_rat, NotArithmetic
-from ..common import rule_body, pattern_field_check, result_alternatives, getter_leaf, check_binop_table
+from ..common import rule_body, pattern_field_check, result_alternatives, getter_leaf, check_binop_table, check_literal_reader
 from .. import model
 
 X, P, A, B = Rat.sym('X'), Rat.sym('p'), Rat.sym('A'), Rat.sym('B')
@@ -132,24 +132,33 @@ def q1_formulas(ctx):
             ctx.finding('Q1', 'PercentItem::get_number/formula', 'a percent operand is turned into %s; the statement needs other*p/100' % render(a)[:120], site=g.loc)
     if n_arith != 1:
         raise AnchorLost('PercentItem::get_number: expected one arithmetic arm, found %d' % n_arith)
-    # cells: NumberItem / MoneyItem calculate with a percent on the right: right operand = other.get_number(self)
+    # cells: NumberItem / MoneyItem calculate with a percent on the right: under the percent arm the right operand of
+    # + and - is exactly other.get_number(self) (no further transformation)
     for owner, arm in (('number::NumberItem', r'PercentItem'), ('money::MoneyItem', r'"PERCENT"')):
         c = ctx.facts.one(r'^<compiler::%s as compiler::DataItem>::calculate$' % owner)
         ctx.fn(c)
-        found = False
-        for bid, t in c.calls(r'DataItem::get_number$'):
-            conds = ' & '.join(c.cond_text(bid))
-            recv, arg = render(c.expr(t['args'][0])), render(c.expr(t['args'][1]))
-            if re.search(arm, conds):
-                found = True
-                if recv == 'other' and arg == 'self':
-                    ctx.ok('Q1', '%s::calculate percent arm: right = other.get_number(self)' % owner, 'wiring', site=t['loc'])
-                else:
-                    ctx.finding('Q1', '%s::calculate/percent-arm-wiring' % owner.split('::')[1], 'percent arm calls get_number(%s, %s), expected other.get_number(self)' % (recv, arg), site=t['loc'])
-        if not found:
-            ctx.finding('Q1', '%s::calculate/percent-arm-missing' % owner.split('::')[1], 'no percent arm that turns the percentage into a share of the left operand', site=c.loc)
-        # the Add / Sub rows themselves
-        tab = check_binop_table(ctx, c, 'Q1', None, False)
+        raw = check_binop_table(ctx, c, 'Q1', None, False)
+        short = owner.split('::')[1]
+        for variant in ('Add', 'Sub'):
+            rows = raw.get(variant, [])
+            found = 0
+            for l, r in rows:
+                for a, conds in alternatives(c, r):
+                    cs = [cond_str(d, v) for d, v in resolve_conds(c, conds)]
+                    if not any(x.startswith('on_left') and x.endswith('!=[0]') for x in cs):
+                        continue
+                    parm = [x for x in cs if re.search(arm, x) and x.endswith('!=[0]')]
+                    if not parm:
+                        continue
+                    found += 1
+                    txt = render(a)
+                    if txt == 'DataItem::get_number(other, self)':
+                        ctx.ok('Q1', '%s::calculate %s, percent arm: right = other.get_number(self)' % (short, variant), 'gamma', site=c.loc)
+                    else:
+                        ctx.finding('Q1', '%s::calculate/%s/percent-arm' % (short, variant),
+                                    "'X %s p%%': the right operand under the percent arm is %s; it must be other.get_number(self) (= X*p/100)" % ('+' if variant == 'Add' else '-', txt[:140]), site=c.loc)
+            if not found:
+                ctx.finding('Q1', '%s::calculate/%s/percent-arm-missing' % (short, variant), 'no percent arm found for OperationType::%s in %s::calculate' % (variant, short), site=c.loc)
     # composition (informational, exact): X + share == X*(1+p/100), X - share == X*(1-p/100)
     if share is not None:
         if (X + share).equals(X * (ONE + P / H)) and (X - share).equals(X * (ONE - P / H)):
@@ -284,4 +293,10 @@ def q5_spellings(ctx):
         raise AnchorLost('percent_regex_parser: expected one TokenType::Percent construction, found %d' % len(aggs))
 
 
-RULES = [('Q1', q1_formulas), ('Q2', q2_money), ('Q3', q3_routing), ('Q4', q4_fields), ('Q5', q5_spellings)]
+def q6_reader(ctx):
+    """Q6 a percent literal denotes the f64 value of its NUMBER group text (normalised by the separators)"""
+    ctx.rule('Q6', 'percent literal value', floor=1)
+    check_literal_reader(ctx, 'Q6', r'regex_tokinizer::percent::percent_regex_parser$', 'Percent', ['NUMBER'], 'percent_regex_parser')
+
+
+RULES = [('Q1', q1_formulas), ('Q2', q2_money), ('Q3', q3_routing), ('Q4', q4_fields), ('Q5', q5_spellings), ('Q6', q6_reader)]
